@@ -264,9 +264,24 @@ class Scanner:
         fwd, rev = spec['fwd'], spec['rev']
 
         def check_arg(fn, x):
-            if '\0' in x:
-                raise TypeError('%s() argument 1 must be encoded string without null bytes, not str' % fn)
-            x.encode('idna')
+            """The argument conversion of the real socket.gethostbyname / gethostbyaddr.  When the text
+            cannot be converted (NUL, a label that IDNA rejects: empty, longer than 63, ...), the REAL function
+            is called: it raises during the conversion, before any lookup, so what the code under test sees is
+            exactly CPython's exception (UnicodeError, TypeError, ValueError ...), not an imitation."""
+            convertible = '\0' not in x
+            if convertible:
+                try:
+                    x.encode('idna')
+                except UnicodeError:
+                    convertible = False
+            if not convertible:
+                try:
+                    getattr(real_socket, fn)(x)
+                except OSError:
+                    pass        # the real conversion accepted it after all: an ordinary failed lookup
+                else:
+                    return
+                raise real_socket.gaierror(-2, 'Name or service not known')
 
         def gethostbyname(name):
             check_arg('gethostbyname', name)
@@ -303,7 +318,8 @@ class Scanner:
         hw.ssubprocess = _Proxy(saved[1], Popen=P)
         hw._stdin_still_ok = still_ok
         self.files['/etc/hosts'] = spec['etc'].encode('utf-8', 'surrogatepass')
-        self.files[self.cachefile] = None
+        cache = spec.get('cache')
+        self.files[self.cachefile] = None if cache is None else cache.encode('utf-8', 'surrogatepass')
         try:
             hw.hw_main(list(spec['seeds']), True)
         finally:
@@ -764,10 +780,18 @@ ODD_NAMES = ['db..internal', '.lead', 'l' * 64 + '.example', 'x' * 300, 'trail.'
              'ok-name', 'UPPER.Example', 'under_score.example', 'a' * 63 + '.example', 'host:80', 'a#b']
 
 
-def rand_hwmain(rng, nul=False):
+# tokens that check_host() takes for an ADDRESS (\d+\.\d+\.\d+\.\d+ with str digits) but that the resolver's
+# argument conversion rejects or that are no address at all: over-long labels, non-ASCII digits, out of range
+IPSHAPED = ['1' * 64 + '.2.3.4', '1.2.3.' + '4' * 64, '0' * 70 + '.0.0.1', '\u0661.\u0662.\u0663.\u0664', '1.2.3.\u0664',
+            '\uff11.\uff12.\uff13.\uff14', '999.999.999.999', '1' * 300 + '.1.1.1', '10.11.12.13']
+
+
+def rand_hwmain(rng, nul=False, ipshaped=None):
     """A scanner session: seed hosts, remote hosts file, netstat, resolver tables.  A resolvable host is
     always placed behind the odd names (as a seed host, in the hosts file and in netstat)."""
     odd = [rng.choice(ODD_NAMES) for _ in range(rng.choice([1, 2, 3]))]
+    if ipshaped is not None or rng.random() < 0.4:
+        odd.insert(rng.randrange(len(odd) + 1), ipshaped if ipshaped is not None else rng.choice(IPSHAPED))
     if nul:
         odd.append('a\0b')
     good = 'canary%d.example' % rng.randrange(100)
@@ -779,6 +803,7 @@ def rand_hwmain(rng, nul=False):
     if place in ('etc', 'both'):
         etc += ''.join('10.7.0.%d %s\n' % (k + 1, n) for k, n in enumerate(odd))
     etc += '10.6.0.1 files-%d\n' % rng.randrange(10)
+    cache = ''.join('%s,10.4.0.%d\n' % (n, k + 1) for k, n in enumerate(odd) if '\0' not in n) if rng.random() < 0.5 else None
     netstat = 'tcp 0 0 10.0.0.2:22 %s:51234 ESTABLISHED\n' % rip
     fwd = {good: gip, 'localhost': '127.0.0.1', 'rev-' + good: rip}
     for n in odd:
@@ -786,7 +811,7 @@ def rand_hwmain(rng, nul=False):
             fwd[n] = '10.5.0.%d' % rng.randrange(1, 255)
     rev = {rip: 'rev-' + good}
     expect = [[good, gip], ['rev-' + good, rip]]
-    return dict(seeds=seeds, etc=etc, netstat=netstat, fwd=fwd, rev=rev, passes=4, expect=expect)
+    return dict(seeds=seeds, etc=etc, netstat=netstat, fwd=fwd, rev=rev, passes=4, expect=expect, cache=cache)
 
 
 def rand_history(rng):
@@ -1245,7 +1270,8 @@ def gen_cases(ctx, tmpdir):
         logs.append(pipeline_case(ctx, case, tmpdir))
     nh = ctx.scale(30, 400)
     for k in range(nh):
-        case = dict(kind='pipeline', ops=[('hwmain', rand_hwmain(rng, nul=(k == nh - 1)))], encoding='utf-8', chunks=None,
+        spec = rand_hwmain(rng, nul=(k == nh - 1), ipshaped=IPSHAPED[k] if k < len(IPSHAPED) else None)
+        case = dict(kind='pipeline', ops=[('hwmain', spec)], encoding='utf-8', chunks=None,
                     ports=[0, 12300], hosts_file=HOSTS_FILES[0])
         logs.append(pipeline_case(ctx, case, tmpdir))
     # one record cut into three and more reads (consecutive reads without a newline)
